@@ -6,6 +6,7 @@ import (
 	"io"
 	"math/big"
 	"math/rand"
+	"strings"
 
 	"github.com/crate-crypto/go-ipa/bandersnatch/fp"
 	"github.com/crate-crypto/go-ipa/bandersnatch/fr"
@@ -224,6 +225,9 @@ func runC16(c *mon.Ctx) {
 }
 
 func c16decode(c *mon.Ctx, b []byte, cls string) {
+	if len(b)%3 == 2 || len(b) == 32 || len(b) > 64 {
+		c16readOnly(c, b)
+	}
 	snap := append([]byte(nil), b...)
 	vBE := ref.FromBE(b)
 	vLE := ref.FromLE(b)
@@ -367,6 +371,37 @@ func c16decode(c *mon.Ctx, b []byte, cls string) {
 			copy(b, snap)
 		}
 	}
+}
+
+var c16roBudget = 1500
+
+// c16readOnly hands the decoders their input on a read-only memory page: a decoder that writes to its input at all -
+// also transiently, putting everything back before it returns - faults (and would corrupt a concurrent reader of the
+// same bytes, or crash on data mapped from a file).
+func c16readOnly(c *mon.Ctx, b []byte) {
+	if c16roBudget <= 0 || len(b) == 0 {
+		return
+	}
+	c16roBudget--
+	rb := roBytes(b)
+	if rb == nil {
+		return
+	}
+	for _, d := range []struct {
+		name string
+		f    func()
+	}{
+		{"SetBytes", func() { new(fr.Element).SetBytes(rb) }},
+		{"SetBytesLE", func() { new(fr.Element).SetBytesLE(rb) }},
+		{"SetBytesLECanonical", func() { new(fr.Element).SetBytesLECanonical(rb) }},
+		{"ReadScalar", func() { common.ReadScalar(bytes.NewBuffer(rb)) }},
+		{"fp.SetBytes", func() { new(fp.Element).SetBytes(rb) }},
+	} {
+		if faulted, msg := callRO(d.f); faulted && (strings.Contains(msg, "fault") || strings.Contains(msg, "memory address")) {
+			c.Fail("input-written/"+d.name, fmt.Sprintf("%s wrote to its %d-byte input (the input was on a read-only page: %s)", d.name, len(b), msg), nil)
+		}
+	}
+	c.Count("decodes_from_read_only_memory", 1)
 }
 
 func c16roundtrip(c *mon.Ctx, s *big.Int, rng *rand.Rand) {
